@@ -106,10 +106,20 @@ def group_panics(outs):
     return g
 
 
-def solve_path(ex, out, values, st, timeout_s=60, extra=()):
-    """is the path feasible?  returns (verdict, model) with the model evaluated on all leaves of `values`"""
+def solve_path(ex, out, values, st, timeout_s=60, extra=(), bias_vars=()):
+    """is the path feasible?  returns (verdict, model) with the model evaluated on all leaves of `values`.
+    A first attempt restricts the free felt inputs to {0,1}: there the uninterpreted multiplication is exact (x*0=0, x*1=x), so the
+    model is a faithful input of the real function; the unrestricted query decides feasibility if that attempt is unsat."""
     terms = leaf_terms(values)
-    return check(ex.base + ex.axioms + out.pc + list(extra), st, timeout_s=timeout_s, want_model=True, eval_terms=terms, xcheck=False)
+    base = ex.base + ex.axioms + out.pc + list(extra)
+    if bias_vars:
+        tmp = Stats()
+        v, m = check(base + [t <= 1 for t in bias_vars], tmp, timeout_s=min(timeout_s, 20), want_model=True, eval_terms=terms, xcheck=False)
+        st.queries += tmp.queries
+        st.seconds += tmp.seconds
+        if v == "sat":
+            return v, m
+    return check(base, st, timeout_s=timeout_s, want_model=True, eval_terms=terms, xcheck=False)
 
 
 # ------------------------------------------------------------------------------------------------ concrete (honest) configurations
